@@ -3,6 +3,7 @@
 // Block::from_reader, Block::from_file}, checksum::{Checksum, ChecksummedWriter}, header::ChecksummedReader.
 // Obligations: C10.1 (header verification), C10.2 (payload verification on every load), C12.9 (write/read round trip)
 use vstd::prelude::*;
+use std::sync::Arc;
 verus! {
 
 global size_of usize == 8;
@@ -721,6 +722,285 @@ proof fn lemma_block_roundtrip(h: Header, data: Seq<u8>, tail: Seq<u8>, h2: Head
     let b = header_bytes(h) + data + tail;
     assert(b.subrange(33, 33 + h.data_length) =~= data);
 }
+
+// ---------------- block cache (cache.rs) and load_block (table/util.rs) ----------------
+pub type TreeId = u64;
+pub type TableId = u64;
+pub type BlobFileId = u64;
+pub type UserValue = Slice;
+
+/// quick_cache::sync::Cache (TRUSTED model, rule R15): a concurrent map with eviction behind `&self`; its content is
+/// the ghost token `fx` = everything inserted and not removed.  `get` may miss (eviction) but never invents an item.
+#[verifier::external_body]
+#[verifier::reject_recursive_types(K)]
+#[verifier::reject_recursive_types(V)]
+pub struct QuickCache<K, V> { p: core::marker::PhantomData<(K, V)> }
+pub struct CacheState<K, V> { pub ghost map: Map<K, V> }
+impl<K, V> QuickCache<K, V> {
+    #[verifier::external_body]
+    fn get(&self, key: &K, Tracked(fx): Tracked<&mut CacheState<K, V>>) -> (r: Option<V>)
+        ensures *final(fx) == *old(fx), r is Some ==> old(fx).map.contains_key(*key) && r->Some_0 == old(fx).map[*key]
+    { unimplemented!() }
+    #[verifier::external_body]
+    fn insert(&self, key: K, value: V, Tracked(fx): Tracked<&mut CacheState<K, V>>)
+        ensures final(fx).map == old(fx).map.insert(key, value)
+    { unimplemented!() }
+}
+
+//@ FROM src/table/id.rs :: - :: struct GlobalTableId
+/*+*/#[derive(Copy, Clone, PartialEq, Eq, Structural)]/*-*/
+struct GlobalTableId(TreeId, TableId);
+//@ END
+impl GlobalTableId {
+//@ FROM src/table/id.rs :: impl GlobalTableId :: fn tree_id :: OBL C11.5
+    fn tree_id(&self) -> /*+*/(r:/*-*/ TreeId/*+*/) ensures r == self.0/*-*/ {
+        self.0
+    }
+//@ END
+//@ FROM src/table/id.rs :: impl GlobalTableId :: fn table_id :: OBL C11.5
+    fn table_id(&self) -> /*+*/(r:/*-*/ TableId/*+*/) ensures r == self.1/*-*/ {
+        self.1
+    }
+//@ END
+}
+
+//@ FROM src/vlog/handle.rs :: - :: struct ValueHandle
+/*+*/#[derive(Copy, Clone)]/*-*/
+struct ValueHandle {
+    blob_file_id: BlobFileId,
+
+    offset: u64,
+
+    on_disk_size: u32,
+}
+//@ END
+
+impl Block {
+    /// `#[derive(Clone)]` of the source, spelled out (inherent, so that the private fields can be named in the contract)
+    fn clone(&self) -> (r: Self) ensures r.header == self.header, r.data@ == self.data@ { Block { header: self.header, data: self.data.clone() } }
+}
+
+//@ FROM src/cache.rs :: - :: enum Item
+enum Item {
+    Block(Block),
+    Blob(UserValue),
+}
+//@ END
+
+//@ FROM src/cache.rs :: - :: struct CacheKey
+/*+*/pub/*-*/ struct CacheKey(/*+*/pub/*-*/ u8, /*+*/pub/*-*/ u64, /*+*/pub/*-*/ u64, /*+*/pub/*-*/ u64);
+//@ END
+
+impl vstd::std_specs::convert::FromSpecImpl<(u8, u64, u64, u64)> for CacheKey {
+    open spec fn obeys_from_spec() -> bool { true }
+    open spec fn from_spec(t: (u8, u64, u64, u64)) -> CacheKey { CacheKey(t.0, t.1, t.2, t.3) }
+}
+impl From<(u8, u64, u64, u64)> for CacheKey {
+//@ FROM src/cache.rs :: From < ( u8 , u64 , u64 , u64 ) > for CacheKey :: fn from :: OBL C11.5
+//@ SUBST `fn from ( ( tag , root_id , table_id , offset ) : ( u8 , u64 , u64 , u64 ) ) -> Self {` ==> `fn from(t__: (u8, u64, u64, u64)) -> Self { let (tag, root_id, table_id, offset) = t__;`
+    fn from(t__: (u8, u64, u64, u64)) -> /*+*/(r:/*-*/ Self/*+*/) ensures r == CacheKey(t__.0, t__.1, t__.2, t__.3)/*-*/ { let (tag, root_id, table_id, offset) = t__;
+        Self(tag, root_id, table_id, offset)
+    }
+//@ END
+}
+
+const TAG_BLOCK: u8 = 0;
+const TAG_BLOB: u8 = 1;
+
+//@ FROM src/cache.rs :: - :: struct Cache
+//@ SUBST `QuickCache < CacheKey , Item , BlockWeighter , rustc_hash :: FxBuildHasher >` ==> `QuickCache<CacheKey, Item>`
+struct Cache {
+    data: QuickCache<CacheKey, Item>,
+
+    capacity: u64,
+}
+//@ END
+
+/// the cache key of a table block / of a blob: kind tag, tree id, file id, offset - injective in all four
+spec fn block_key(id: GlobalTableId, offset: u64) -> CacheKey { CacheKey(0, id.0, id.1, offset) }
+spec fn blob_key(vlog_id: TreeId, blob_file_id: BlobFileId, offset: u64) -> CacheKey { CacheKey(1, vlog_id, blob_file_id, offset) }
+/// items are stored under a key of their own kind (what makes the `unreachable!` arms unreachable)
+spec fn well_tagged(m: Map<CacheKey, Item>) -> bool {
+    forall|k: CacheKey| #[trigger] m.contains_key(k) ==> (k.0 == 0 ==> m[k] is Block) && (k.0 == 1 ==> m[k] is Blob) && (k.0 == 0 || k.0 == 1)
+}
+
+impl Cache {
+//@ FROM src/cache.rs :: impl Cache :: fn get_block :: OBL C11.5
+//@ SUBST `self . data . get ( $1 )` ==> `self.data.get($1, Tracked(fx))`
+//@ SUBST `* offset` ==> `offset.0`
+    fn get_block(&self, id: GlobalTableId, offset: BlockOffset/*+*/, Tracked(fx): Tracked<&mut CacheState<CacheKey, Item>>/*-*/) -> /*+*/(r:/*-*/ Option<Block>/*+*/)
+        requires well_tagged(old(fx).map)
+        ensures *final(fx) == *old(fx),
+            r is Some ==> old(fx).map.contains_key(block_key(id, offset.0)) && old(fx).map[block_key(id, offset.0)] == Item::Block(r->Some_0)/*-*/
+    {
+        let key: CacheKey = (TAG_BLOCK, id.tree_id(), id.table_id(), offset.0).into();
+
+        Some(match self.data.get(&key, Tracked(fx))? {
+            Item::Block(block) => block,
+            Item::Blob(_) => unreachable!("invalid cache item"),
+        })
+    }
+//@ END
+
+//@ FROM src/cache.rs :: impl Cache :: fn insert_block :: OBL C11.5
+//@ SUBST `self . data . insert ( $1 )` ==> `self.data.insert($1 Tracked(fx))`
+//@ SUBST `* offset` ==> `offset.0`
+    fn insert_block(&self, id: GlobalTableId, offset: BlockOffset, block: Block/*+*/, Tracked(fx): Tracked<&mut CacheState<CacheKey, Item>>)
+        requires well_tagged(old(fx).map)
+        ensures final(fx).map == old(fx).map.insert(block_key(id, offset.0), Item::Block(block)), well_tagged(final(fx).map/*-*/)
+    {
+        self.data.insert(
+            (TAG_BLOCK, id.tree_id(), id.table_id(), offset.0).into(),
+            Item::Block(block),
+        Tracked(fx));
+    }
+//@ END
+
+//@ FROM src/cache.rs :: impl Cache :: fn insert_blob :: OBL C11.5
+//@ SUBST `self . data . insert ( $1 )` ==> `self.data.insert($1 Tracked(fx))`
+//@ SUBST `crate :: TreeId` ==> `TreeId`
+//@ SUBST `crate :: vlog :: ValueHandle` ==> `ValueHandle`
+    fn insert_blob(
+        &self,
+        vlog_id: TreeId,
+        vhandle: &ValueHandle,
+        value: UserValue,
+        /*+*/Tracked(fx): Tracked<&mut CacheState<CacheKey, Item>>
+    )
+        requires well_tagged(old(fx).map)
+        ensures final(fx).map == old(fx).map.insert(blob_key(vlog_id, vhandle.blob_file_id, vhandle.offset), Item::Blob(value)), well_tagged(final(fx).map/*-*/)
+    {
+        self.data.insert(
+            (TAG_BLOB, vlog_id, vhandle.blob_file_id, vhandle.offset).into(),
+            Item::Blob(value),
+        Tracked(fx));
+    }
+//@ END
+
+//@ FROM src/cache.rs :: impl Cache :: fn get_blob :: OBL C11.5
+//@ SUBST `self . data . get ( $1 )` ==> `self.data.get($1, Tracked(fx))`
+//@ SUBST `crate :: TreeId` ==> `TreeId`
+//@ SUBST `crate :: vlog :: ValueHandle` ==> `ValueHandle`
+    fn get_blob(
+        &self,
+        vlog_id: TreeId,
+        vhandle: &ValueHandle,
+        /*+*/Tracked(fx): Tracked<&mut CacheState<CacheKey, Item>>/*-*/
+    ) -> /*+*/(r:/*-*/ Option<UserValue>/*+*/)
+        requires well_tagged(old(fx).map)
+        ensures *final(fx) == *old(fx),
+            r is Some ==> ({ let k = blob_key(vlog_id, vhandle.blob_file_id, vhandle.offset); old(fx).map.contains_key(k) && old(fx).map[k] == Item::Blob(r->Some_0) })/*-*/
+    {
+        let key: CacheKey = (TAG_BLOB, vlog_id, vhandle.blob_file_id, vhandle.offset).into();
+
+        Some(match self.data.get(&key, Tracked(fx))? {
+            Item::Blob(blob) => blob,
+            Item::Block(_) => unreachable!("invalid cache item"),
+        })
+    }
+//@ END
+}
+
+/// ghost: the bytes of the file of table `id` (table files are immutable once written)
+uninterp spec fn table_file(id: GlobalTableId) -> Seq<u8>;
+#[verifier::external_body] pub struct Path { p: u8 }
+impl Path { uninterp spec fn names_table(&self, id: GlobalTableId) -> bool; }
+impl File {
+    /// std::fs::File::open on a table path: a descriptor of that table's file
+    #[verifier::external_body]
+    fn open(path: &Path) -> (r: Result<File, Error>)
+        ensures r is Ok ==> forall|id: GlobalTableId| #[trigger] path.names_table(id) ==> r->Ok_0.content() == table_file(id)
+    { unimplemented!() }
+}
+/// FileAccessor (pinned descriptor or descriptor table; its keying is obligation C11.6): hands out only descriptors
+/// registered for this table, and load_block must register only a descriptor of this table's file
+#[verifier::external_body] pub struct FileAccessor { p: u8 }
+impl FileAccessor {
+    #[verifier::external_body]
+    fn access_for_table(&self, table_id: &GlobalTableId) -> (r: Option<std::sync::Arc<File>>)
+        ensures r is Some ==> r->Some_0.content() == table_file(*table_id)
+    { unimplemented!() }
+    #[verifier::external_body]
+    fn insert_for_table(&self, table_id: GlobalTableId, fd: std::sync::Arc<File>)
+        requires fd.content() == table_file(table_id)
+    { unimplemented!() }
+}
+
+/// `b` is what a verified load of the block at `offset` of table `id` yields
+spec fn block_of(id: GlobalTableId, offset: u64, b: Block) -> bool {
+    exists|size: u32| #[trigger] stored_in(id, offset, size, b)
+}
+spec fn stored_in(id: GlobalTableId, offset: u64, size: u32, b: Block) -> bool {
+    offset + size <= table_file(id).len() && stored_at(table_file(id).subrange(offset as int, offset + size), b)
+}
+spec fn stored_at(buf: Seq<u8>, b: Block) -> bool { b.data@ == buf.skip(33) && stored_block_ok(buf, b.header, b.data@) }
+spec fn entry_ok(k: CacheKey, it: Item) -> bool { k.0 == 0 ==> it is Block && block_of(GlobalTableId(k.1, k.2), k.3, it->Block_0) }
+/// cache invariant: every cached block is a verified block of the table and offset it is filed under
+spec fn cache_ok(m: Map<CacheKey, Item>) -> bool {
+    well_tagged(m) && forall|k: CacheKey| #[trigger] m.contains_key(k) ==> entry_ok(k, m[k])
+}
+
+//@ FROM src/table/util.rs :: - :: fn load_block :: OBL C10.3, C11.5
+//@ SUBST `crate :: Result < Block >` ==> `Result<Block, Error>`
+//@ SUBST `cache . get_block ( $1 )` ==> `cache.get_block($1, Tracked(fx))`
+//@ SUBST `cache . insert_block ( $1 )` ==> `cache.insert_block($1, Tracked(fx))`
+//@ SUBST `std :: fs :: File :: open` ==> `File::open`
+fn load_block(
+    table_id: GlobalTableId,
+    path: &Path,
+    file_accessor: &FileAccessor,
+    cache: &Cache,
+    handle: &BlockHandle,
+    block_type: BlockType,
+    compression: CompressionType,
+    /*+*/Tracked(fx): Tracked<&mut CacheState<CacheKey, Item>>/*-*/
+) -> /*+*/(r:/*-*/ Result<Block, Error>/*+*/)
+    requires cache_ok(old(fx).map), path.names_table(table_id)
+    ensures cache_ok(final(fx).map),
+        r is Ok ==> block_of(table_id, handle.offset.0, r->Ok_0)
+            && (r->Ok_0.header.block_type == block_type || old(fx).map.contains_key(block_key(table_id, handle.offset.0)))/*-*/
+{
+    if let Some(block) = cache.get_block(table_id, handle.offset(), Tracked(fx)) {
+        /*+*/proof { assert(entry_ok(block_key(table_id, handle.offset.0), old(fx).map[block_key(table_id, handle.offset.0)])); }/*-*/
+        return Ok(block);
+    }
+
+    let (fd, fd_cache_miss) = if let Some(cached_fd) = file_accessor.access_for_table(&table_id) {
+        (cached_fd, false)
+    } else {
+        let fd = File::open(path)?;
+
+        (Arc::new(fd), true)
+    };
+
+    let block = Block::from_file(&fd, *handle, compression)?;
+
+    if block.header.block_type != block_type {
+        return Err(Error::InvalidTag((
+            "BlockType",
+            block.header.block_type.into(),
+        )));
+    }
+
+    if fd_cache_miss {
+        file_accessor.insert_for_table(table_id, fd);
+    }
+
+    /*+*/proof { assert(stored_in(table_id, handle.offset.0, handle.size, block)); }
+    let ghost m0 = fx.map;/*-*/
+    cache.insert_block(table_id, handle.offset(), block.clone(), Tracked(fx));
+    /*+*/proof {
+        let k = block_key(table_id, handle.offset.0);
+        let c = fx.map[k]->Block_0;
+        assert(stored_in(table_id, handle.offset.0, handle.size, c));
+        assert forall|k2: CacheKey| #[trigger] fx.map.contains_key(k2) implies entry_ok(k2, fx.map[k2]) by {
+            if k2 != k { assert(m0.contains_key(k2)); }
+        }
+    }/*-*/
+
+    Ok(block)
+}
+//@ END
 
 }
 fn main() {}
